@@ -364,11 +364,26 @@ func TestSessionPairs(t *testing.T) {
 		closeA := rapid.Bool().Draw(t, "closeA")
 		eb := rapid.SampledFrom(cat).Draw(t, "command")
 		draw := rapid.IntRange(0, 1<<20).Draw(t, "draw")
+		// the caller may keep one preference slice and hand it to every session it
+		// opens (the fleet-scraper pattern); whatever an earlier discovery found must
+		// not change it
+		shareList := rapid.Bool().Draw(t, "samePreferenceSliceForBoth")
+		if shareList {
+			prefA = prefB
+		}
+		var shared []ipmi.CipherSuite
 		opts := func(c hx.Creds, pref []int) *bmc.V2SessionOpts {
 			o := c.Opts()
 			o.CipherSuites = nil
+			if shareList && shared != nil {
+				o.CipherSuites = shared
+				return o
+			}
 			for _, i := range pref {
 				o.CipherSuites = append(o.CipherSuites, hx.LibSuite(suites[i]))
+			}
+			if shareList {
+				shared = o.CipherSuites
 			}
 			return o
 		}
@@ -421,8 +436,38 @@ func TestSessionPairs(t *testing.T) {
 			}
 			return out + fmt.Sprintf(" %s: code=%v %s", cb.Name, code, cb.Summary())
 		}
-		used, fresh := run(true), run(false)
+		used := run(true)
+		shared = nil
+		fresh := run(false)
 		ev.Eval()
+		// the fresh result itself is pinned to the documented rule, so that state
+		// kept beyond the connection (package level) cannot hide in both runs: the
+		// first preference (default: SHA256 suite 17, then SHA1 suite 3) the BMC
+		// advertises; a single preference is proposed as it is
+		eff := prefB
+		if len(eff) == 0 {
+			eff = []int{8, 0}
+		}
+		want := -1
+		if len(eff) == 1 {
+			want = eff[0]
+		} else {
+			for _, i := range eff {
+				if advertised&(1<<uint(i)) != 0 {
+					want = i
+					break
+				}
+			}
+		}
+		if want >= 0 {
+			ws := hx.LibSuite(suites[want])
+			pre := fmt.Sprintf("auth=%v integrity=%v confidentiality=%v", ws.AuthenticationAlgorithm, ws.IntegrityAlgorithm, ws.ConfidentialityAlgorithm)
+			if !strings.HasPrefix(fresh, pre) {
+				t.Fatalf("session opened on a fresh connection with preferences %v (advertised %09b): %s; the rule gives %s", prefB, advertised, fresh, pre)
+			}
+		} else if fresh != "open failed" {
+			t.Fatalf("session opened with preferences %v although none is advertised (%09b): %s", prefB, advertised, fresh)
+		}
 		if used != fresh {
 			t.Fatalf("session opened with preferences %v after an earlier session with preferences %v (advertised %09b) differs from the same open on a fresh connection:\n used:  %s\n fresh: %s", prefB, prefA, advertised, used, fresh)
 		}
